@@ -607,7 +607,14 @@ func (p *packerV4) pack(options ...*bgp.MarshallingOption) []*bgp.BGPMessage {
 	// TotalPathAttributeLen + attributes + maxlen of NLRI).
 	// the max size of NLRI is 5bytes (plus 4bytes with addpath enabled)
 	maxNLRIs := func(attrsLen int) int {
-		return (maxUpdateMessageLength(options) - (19 + 2 + 2 + attrsLen)) / (5 + addpathNLRILen)
+		n := (maxUpdateMessageLength(options) - (19 + 2 + 2 + attrsLen)) / (5 + addpathNLRILen)
+		if n < 1 {
+			// The attributes alone exceed the limit. Emit one prefix per
+			// message, as packerMP does; the sender rejects and reports the
+			// oversize message instead of panicking here.
+			n = 1
+		}
+		return n
 	}
 
 	loop := func(attrsLen int, paths []*Path, cb func([]bgp.PathNLRI)) {
